@@ -99,6 +99,7 @@ class Recorder(object):
         self.marks = []
         self.errors = []
         self.light = light          # light: no snapshots (event sequence / clocks only)
+        self.hold = False           # resumed runs: no snapshots (they read lazily cached prices) before the clock is set by the first trading event
         self.depth = 0
 
     def snapshot(self):
@@ -109,7 +110,7 @@ class Recorder(object):
             out['phase'] = ExecutionContext.phase().name
         except Exception:
             out['phase'] = None
-        if self.light:
+        if self.light or self.hold:
             return out
         pf = env.portfolio
         accs = {}
@@ -251,6 +252,8 @@ class Recorder(object):
 
     def _first(self, ev):
         def f(e):
+            if self.hold and ev.name in ('PRE_SETTLEMENT', 'PRE_BEFORE_TRADING', 'BEFORE_TRADING'):
+                self.hold = False
             self.mark('ev0', ev=ev.name, payload=self._payload(e))
         return f
 
@@ -295,6 +298,15 @@ def do_action(api, env, context, act, orders, rec):
         r = api.submit_order(act['id'], act['amt'], SIDE[act['side']], price=price,
                              position_effect=POSITION_EFFECT[act['eff']] if act.get('eff') else None)
         ret = [r]
+    elif op == 'cancel' and act.get('today') is not None:
+        # the j-th order submitted today (independent of where the run started)
+        today = [o for o in orders if o.trading_datetime.date() == env.trading_dt.date()]
+        if today:
+            o = today[act['today'] % len(today)]
+            api.cancel_order(o)
+            res = dict(target=o.order_id)
+        else:
+            res = dict(target=None)
     elif op == 'cancel':
         k = act['k']
         if k < len(orders):
@@ -358,6 +370,17 @@ def do_action(api, env, context, act, orders, rec):
     elif op == 'instruments':
         r = api.instruments(act['id'])
         res = None if r is None else dict(id=r.order_book_id, type=str(r.type), listed=str(r.listed_date)[:10], lot=fnum(r.round_lot))
+    elif op == 'ctx_set':
+        setattr(context, act['name'], act['value'])
+    elif op == 'ctx_add':
+        setattr(context, act['name'], getattr(context, act['name'], 0) + act.get('by', 1))
+        res = getattr(context, act['name'])
+    elif op == 'ctx_get':
+        res = repr(getattr(context, act['name'], '<unset>'))
+    elif op == 'g_add':
+        g = env.global_vars
+        setattr(g, act['name'], getattr(g, act['name'], 0) + act.get('by', 1))
+        res = getattr(g, act['name'])
     elif op == 'feedback':
         # an order computed from everything the strategy has observed so far
         h = getattr(rec, 'digest', 0)
@@ -389,6 +412,10 @@ def build_config(scn, bundle):
     mod.setdefault('sys_analyser', {}).setdefault('enabled', False)
     if cfg['base'].get('frequency') == '1m':
         mod['vmin'] = {'enabled': True, 'lib': 'rqalpha_mod_vmin', 'priority': 50}
+    if scn.get('persist'):
+        cfg['base']['persist'] = True
+        cfg['base']['persist_mode'] = scn['persist'].get('mode', 'real_time')
+        mod['vpersist'] = {'enabled': True, 'lib': 'rqalpha_mod_vpersist', 'priority': 40, 'snapshot': bool(scn['persist'].get('snapshot'))}
     for k, pr in enumerate(scn.get('probes', [])):
         mod['vprobe%d' % k] = dict(enabled=True, lib='rqalpha_mod_vprobe', priority=pr['priority'], tag=pr['tag'], teardown_raises=pr.get('teardown_raises', False),
                                    fault_event=pr.get('fault_event'), fault_day=pr.get('fault_day'))
@@ -450,6 +477,7 @@ def run_scenario(scn, light=False, extra_init=None, keep_bundle=None, world=None
         def init(context):
             env = Environment.get_instance()
             rec = Recorder(env, light=light)
+            rec.hold = bool((scn.get('persist') or {}).get('resume'))
             box['rec'] = rec
             rec.install()
             if scn.get('universe'):
